@@ -28,8 +28,11 @@ History (JSON-able): list of steps
 Every line logs the projected state after the step:
   now (s), mon {app: count, avail (micro-tokens), last (s), policy, rate (micro-tokens/h)},
   susp {app: until (s)}, view {app: [{name, n}]} (what the monitor holds),
-  zk {app: [{name, n}]} (children of /scheduled), and for Evaluate the calls.
+  zk {app: [{name, n}]} (children of /scheduled), and for Evaluate the calls;
+  extension: pub (the map stored in the /app-monitors node), waited (what the last
+  reevaluate() returned), reader {app: suspend_until or -1} (masterapi.get_appmonitor).
 """
+import json
 import threading
 import time as _realtime
 from unittest import mock
@@ -88,6 +91,7 @@ class Monitor:
         self.pend_delete = {}
         self.alerts = []
         self.state = None
+        self.waited = {}                    # what the last reevaluate() returned (= next last_waited)
         self.error = None
         self.quota = _quota()
         self._go = threading.Semaphore(0)
@@ -122,7 +126,8 @@ class Monitor:
 
         def reevaluate(api_url, alert_f, state, zkclient, last_waited):
             mon.state = state
-            return real_reevaluate(api_url, alert_f, state, zkclient, last_waited)
+            mon.waited = real_reevaluate(api_url, alert_f, state, zkclient, last_waited)
+            return mon.waited
 
         def alerter(_alerts_dir, _cell):
             return lambda instance, summary, **kw: mon.alerts.append((instance, summary))
@@ -270,8 +275,19 @@ class Monitor:
         zk = {}
         for inst in self.store.children(z.SCHEDULED):
             zk.setdefault(inst.rpartition('#')[0], []).append(inst)
+        # extension (published bookkeeping): the /app-monitors node as stored, what
+        # reevaluate() returned, and what a reader of masterapi.get_appmonitor sees
+        raw = self.store.nodes[z.path.appmonitor()].data
+        pub = json.loads(raw.decode()) if raw else {}
+        reader = {}
+        for app in self.store.children(z.path.appmonitor()):
+            until = masterapi.get_appmonitor(self.env, app)['suspend_until']
+            reader[app] = -1 if until is None else int(round(until - T0))
         return dict(now=self.clock, mon=mon, susp=susp, view=view,
-                    zk={a: _insts(l) for a, l in zk.items()})
+                    zk={a: _insts(l) for a, l in zk.items()},
+                    pub={a: int(round(v - T0)) for a, v in pub.items()},
+                    waited={a: int(round(v - T0)) for a, v in self.waited.items()},
+                    reader=reader)
 
 
 def _insts(names):
